@@ -352,6 +352,6 @@ MANIFEST_ENTRY = {
     "text": ("Random router configurations (and, in the thorough tier, all 1023 single-method configurations) are compiled by the "
              "real Router at versions 6-10; for each, every call in the enumerated call space is executed and the set of handlers "
              "that ran is compared with a 20-line table model of the registration, including the clear-state program. "
-             "Held = held on the calls listed."),
+             "Held = held on the calls listed. Methods are registered through add_method_handler and through the decorator; actions include conditionals with exiting and non-exiting arms; colliding selectors (found by birthday search) must be refused or dispatched correctly; routers are also compiled with assembled constants."),
     "note": "Trusted: vlib/avm.py; the model's reading of the documented dispatch rule.",
 }
